@@ -29,7 +29,7 @@ CONSTANTS MaxAuth,     \* maximal number of provider registrations
           MaxLen       \* maximal number of events
 
 AScopes == {"global", "schema", "test"}
-AForms(s) == IF s = "test" THEN {"apply"} ELSE {"register", "call", "requests"}
+AForms(s) == IF s = "test" THEN {"apply"} ELSE IF Rich THEN {"register", "call", "requests"} ELSE {"call", "requests"}
 ARegEvent(s, f, c) == [ev |-> "areg", s |-> s, f |-> f, c |-> c]
 AUnregEvent(s)     == [ev |-> "aunreg", s |-> s, f |-> "-", c |-> "-"]
 
@@ -38,29 +38,35 @@ ARegPositions(hs) == {k \in 1..Len(hs) : hs[k].ev = "areg"}
 APosOf(hs, p) == CHOOSE k \in ARegPositions(hs) : Cardinality({j \in ARegPositions(hs) : j <= k}) = p
 ANRegs(hs) == Cardinality(ARegPositions(hs))
 ALive(hs, p) == LET k == APosOf(hs, p) IN ~\E j \in (k + 1)..Len(hs) : hs[j].ev = "aunreg" /\ hs[j].s = hs[k].s
-May(hs, p, o) == ALive(hs, p) /\ ASelTable[hs[APosOf(hs, p)].c][o]
-LiveScopes(hs) == {hs[APosOf(hs, p)].s : p \in {q \in 1..ANRegs(hs) : ALive(hs, q)}}
+(* two schemas live in the process (HooksCatalogue): the schema storage and the test storage belong to schema A, the global *)
+(* storage concerns both                                                                                                     *)
+ACovers(s, o) == s = "global" \/ Ops[o].schema = "A"
+May(hs, p, o) == ALive(hs, p) /\ ASelTable[hs[APosOf(hs, p)].c][o] /\ ACovers(hs[APosOf(hs, p)].s, o)
+LiveScopes(hs, o) == {sc \in {hs[APosOf(hs, p)].s : p \in {q \in 1..ANRegs(hs) : ALive(hs, q)}} : ACovers(sc, o)}
 Must(hs, o) == IF ~\E p \in 1..ANRegs(hs) : May(hs, p, o) THEN "none"
-               ELSE IF Cardinality(LiveScopes(hs)) = 1 THEN "some" ELSE "U"
+               ELSE IF Cardinality(LiveScopes(hs, o)) = 1 THEN "some" ELSE "U"
 (* verdict on an observation: obs = id of the provider whose data ended up on the case, 0 = none *)
 Sound(hs, o, obs) == obs = 0 \/ (obs \in 1..ANRegs(hs) /\ May(hs, obs, o))
 Complete(hs, o, obs) == Must(hs, o) = "some" => obs # 0
 
-VARIABLES ahist, providers     \* providers: scope -> sequence of provider ids
-avars == <<ahist, providers>>
+VARIABLES ahist, providers,    \* providers: scope -> sequence of provider ids
+          aorder               \* order in which the two schemas are used when cases are generated ("AB" / "BA")
+avars == <<ahist, providers, aorder>>
 anreg == ANRegs(ahist)
-AInit == ahist = << >> /\ providers = [s \in AScopes |-> << >>]
+AInit == ahist = << >> /\ providers = [s \in AScopes |-> << >>] /\ aorder \in {"AB", "BA"}
 AuthRegister(s, f, c) ==
   /\ anreg < MaxAuth /\ Len(ahist) < MaxLen
   /\ f \in AForms(s)
   /\ s = "test" => providers["test"] = << >>        \* `apply` can decorate a test function once
   /\ ahist' = Append(ahist, ARegEvent(s, f, c))
   /\ providers' = [providers EXCEPT ![s] = Append(@, anreg + 1)]
+  /\ UNCHANGED aorder
 AuthUnregister(s) ==
   /\ Len(ahist) < MaxLen /\ s # "test" /\ providers[s] # << >>
   /\ ~\E k \in 1..Len(ahist) : ahist[k].ev = "aunreg"
   /\ ahist' = Append(ahist, AUnregEvent(s))
   /\ providers' = [providers EXCEPT ![s] = << >>]
+  /\ UNCHANGED aorder
 ANext == \/ \E s \in AScopes, f \in {"register", "call", "requests", "apply"}, c \in ChainIds \cup {"-"} : AuthRegister(s, f, c)
          \/ \E s \in AScopes : AuthUnregister(s)
 ASpec == AInit /\ [][ANext]_avars
@@ -69,14 +75,15 @@ ASpec == AInit /\ [][ANext]_avars
 AInList(s, p) == \E i \in 1..Len(providers[s]) : providers[s][i] = p
 ATypeOK == Len(ahist) <= MaxLen /\ anreg <= MaxAuth
 AStateAgrees == \A p \in 1..anreg : ALive(ahist, p) = \E s \in AScopes : AInList(s, p)
-AUnfilteredEverywhere == \A p \in 1..anreg : (ahist[APosOf(ahist, p)].c = "-" /\ ALive(ahist, p)) => \A o \in 1..NOps : May(ahist, p, o)
+AUnfilteredEverywhere == \A p \in 1..anreg : (ahist[APosOf(ahist, p)].c = "-" /\ ALive(ahist, p)) =>
+                            \A o \in 1..NOps : ACovers(ahist[APosOf(ahist, p)].s, o) => May(ahist, p, o)
 ANoneMeansNoMay == \A o \in 1..NOps : Must(ahist, o) = "none" <=> \A p \in 1..anreg : ~May(ahist, p, o)
 
 Bit(b) == IF b THEN 1 ELSE 0
 AExport ==
   IF ahist = << >>
-  THEN PrintT(<<"CATALOGUE", ToJson([ops |-> Ops, chains |-> [c \in ChainIds |-> ChainDef[c]]])>>)
-  ELSE PrintT(<<"CASE", ToJson([events |-> ahist,
+  THEN aorder = "BA" \/ PrintT(<<"CATALOGUE", ToJson([ops |-> Ops, chains |-> [c \in ChainIds |-> ChainDef[c]]])>>)
+  ELSE PrintT(<<"CASE", ToJson([events |-> ahist, order |-> aorder,
                                  may |-> [p \in 1..anreg |-> [o \in 1..NOps |-> Bit(May(ahist, p, o))]],
                                  must |-> [o \in 1..NOps |-> Must(ahist, o)]])>>)
 =============================================================================
